@@ -56,7 +56,7 @@ CHECKS = {
          "Concurrent producers, Start, Close and failing callbacks are run against the real ring buffer and async processor under injected yields; recorded histories are checked for linearizability to a bounded FIFO and for at-most-once / order / no-run-after-Close / wake-up / error-once invariants.",
          "Schedules are sampled; histories kept short for the NP-complete checker (timeouts = inconclusive).", "DESIGN.md section 3 C16"),
  "C17": ("exploration", "wire taps (PacketConn / TLS-inner conn wrappers) with cleartext-marker scanner, tamper injector and end-to-end delivery checker; downgrade probes; race detector",
-         "Secure sessions are run end to end; taps scan every datagram / interleaved frame for application markers, flip bits in protected packets and check they are rejected, and the delivery checker confirms both sides decrypt what the other encrypts across ROC advances, for plain-profile and secure readers mixed on one stream, boundary-size RTCP and the UDP-to-TCP fallback of a secure client.",
+         "Secure sessions are run end to end; taps scan every datagram / interleaved frame for application markers, flip bits in protected packets and check they are rejected, and the delivery checker confirms both sides decrypt what the other encrypts across ROC advances, for plain-profile and secure readers mixed on one stream, boundary-size RTCP, the UDP-to-TCP fallback of a secure client, and a relayed server that announces the key in the SDP only (media level, with a different session-level key).",
          "Multicast traffic is observed passively only.", "DESIGN.md section 3 C17"),
  "C18": ("exploration", "wire taps recording the size of every outbound datagram / frame paired with write return values over a size sweep around the limit",
          "Writes whose marshalled size sweeps the configured maximum are issued on every entry point, plain and SRTP; the tap asserts no datagram / frame exceeds the maximum and that refused writes transmit nothing; Start-time validation is enumerated.",
